@@ -12,7 +12,7 @@ func init() {
 }
 
 var sqlLeafForms = []int{lfEqStr, lfEqInt, lfGt, lfGe, lfLt, lfLe, lfRangeIncl, lfRangeExcl, lfRangeLo, lfRangeHi, lfRangeStr, lfList,
-	lfWild, lfQuoted, lfRangeExclStr, lfRangeStrLo, lfRangeStrHi, lfRangeAll, lfRangeExclLo, lfRangeExclHi, lfListInt, lfWildMid, lfRegexp, lfFloat, lfRangeFloat, lfRangeFloatEx, lfRegexpShort, lfSpecialFloat}
+	lfWild, lfQuoted, lfRangeExclStr, lfRangeStrLo, lfRangeStrHi, lfRangeAll, lfRangeExclLo, lfRangeExclHi, lfListInt, lfWildMid, lfRegexp, lfFloat, lfRangeFloat, lfRangeFloatEx, lfRegexpShort, lfSpecialFloat, lfRangeComma, lfEqSpecial}
 
 var sqlTreeOps = []int{nOr, nAnd, nNot, nMustNot, nMust}
 
@@ -55,7 +55,7 @@ func globMatch(s, pat string) bool {
 // leafMeaning: the truth of the leaf on a row value, as C03 states it.
 func leafMeaning(lf *leaf, x rowVal) bool {
 	switch lf.form {
-	case lfEqStr, lfQuoted:
+	case lfEqStr, lfQuoted, lfEqSpecial:
 		return x.s == lf.s1
 	case lfEqInt:
 		return x.i == lf.i1
@@ -81,7 +81,7 @@ func leafMeaning(lf *leaf, x rowVal) bool {
 		return x.i > lf.i1
 	case lfRangeAll:
 		return true
-	case lfRangeStr:
+	case lfRangeStr, lfRangeComma:
 		return rtAnd(x.s >= lf.s1, x.s <= lf.s2)
 	case lfRangeExclStr:
 		return rtAnd(x.s > lf.s1, x.s < lf.s2)
@@ -194,13 +194,13 @@ func translatePattern(p string) string {
 
 func leafValues(lf *leaf) []qval {
 	switch lf.form {
-	case lfEqStr, lfQuoted, lfRangeStrLo, lfRangeStrHi:
+	case lfEqStr, lfQuoted, lfRangeStrLo, lfRangeStrHi, lfEqSpecial:
 		return []qval{{s: lf.s1}}
 	case lfEqInt, lfGt, lfGe, lfLt, lfLe, lfRangeLo, lfRangeHi, lfRangeExclLo, lfRangeExclHi:
 		return []qval{{isInt: true, i: lf.i1}}
 	case lfRangeIncl, lfRangeExcl, lfListInt:
 		return []qval{{isInt: true, i: lf.i1}, {isInt: true, i: lf.i2}}
-	case lfRangeStr, lfRangeExclStr, lfList:
+	case lfRangeStr, lfRangeExclStr, lfList, lfRangeComma:
 		return []qval{{s: lf.s1}, {s: lf.s2}}
 	case lfWild, lfWildMid:
 		return []qval{{s: translatePattern(lf.s1)}}
@@ -230,6 +230,18 @@ func treeFields(t *node) []string {
 	var out []string
 	for _, n := range collect(t, nLeaf, nil) {
 		out = append(out, n.lf.field)
+	}
+	return out
+}
+
+// joinUS joins with the unit separator (for observations read by the referee).
+func joinUS(xs []string) string {
+	out := ""
+	for i, x := range xs {
+		if i > 0 {
+			out += "\x1f"
+		}
+		out += x
 	}
 	return out
 }
@@ -322,8 +334,15 @@ func sqlChecks(t *node, text string, withRows bool) {
 		return
 	}
 	rtObserve("sql", sql)
+	rtObserve("fields", joinUS(fields))
+	rtObserve("strvals", joinUS(strVals))
 	// --- C02: one confined boolean expression, user text only in literals
 	ast, nparamInline, ok := pgParse(sql)
+	if ok {
+		rtObserve("sqlmodel", "ok")
+	} else {
+		rtObserve("sqlmodel", "bad")
+	}
 	rtAssert("inline-confined", ok && nparamInline == 0)
 	if ok {
 		var cols, strs, nums []string
@@ -346,6 +365,11 @@ func sqlChecks(t *node, text string, withRows bool) {
 	if perr == nil {
 		rtObserve("psql", psql)
 		past, np, pok := pgParse(psql)
+		if pok {
+			rtObserve("psqlmodel", "ok")
+		} else {
+			rtObserve("psqlmodel", "bad")
+		}
 		rtAssert("param-confined", pok)
 		if pok {
 			var cols, strs, nums []string
@@ -431,6 +455,8 @@ func H_SQLTree() {
 	concreteFields, nextField = true, 0
 	var forms []int
 	if rtParam("LEAVES") == 0 {
+		forms = []int{lfEqInt}
+	} else if rtParam("LEAVES") == 2 {
 		forms = []int{lfEqInt, lfGt}
 	} else {
 		forms = []int{lfEqInt, lfLe, lfRangeIncl, lfEqStr, lfListInt}
@@ -518,6 +544,8 @@ func H_IdentConfined() {
 	}
 	q := string(text) + ":v"
 	rtObserve("query", q)
+	rtObserve("fields", string(name))
+	rtObserve("strvals", "v")
 	sql, err := lucene.ToPostgres(q)
 	if err != nil {
 		rtReach("rejected")
@@ -534,6 +562,7 @@ func H_IdentConfined() {
 	psql, params, perr := lucene.ToParameterizedPostgres(q)
 	rtAssert("ident-same-outcome", (err == nil) == (perr == nil))
 	if perr == nil {
+		rtObserve("psql", psql)
 		ast, np, ok := pgParse(psql)
 		good := ok && np == 1 && len(params) == 1 && ast.kind == qCmp && ast.a.kind == qCol && ast.b.kind == qParam
 		rtAssert("ident-param-confined", good)
